@@ -209,6 +209,7 @@ func WorkerMain() {
 		replay   = flag.String("replay", "", "scenario file to execute once")
 		trace    = flag.Bool("trace", false, "print the trace in replay mode")
 		gen      = flag.Uint64("gen", 0, "print the scenario generated from this seed and exit")
+		one      = flag.Uint64("one", 0, "run exactly the scenario generated from this seed (used by the driver after a worker process died)")
 		detEvery = flag.Int64("det-every", 50, "re-execute every n-th scenario from its recorded tape and compare traces")
 		search   = flag.Int("search", 0, "with -replay: if >0, ignore the stored schedule and try this many fresh schedules, looking for the expected violation class; the first failing scenario is written to -save")
 		save     = flag.String("save", "", "with -search: where to write the failing scenario")
@@ -321,8 +322,12 @@ func WorkerMain() {
 		os.WriteFile(fmt.Sprintf("%s/keys-%d.bin", *out, *offset), kb, 0o644)
 		os.Exit(code)
 	}
+	curFile := fmt.Sprintf("%s/cur-%d", *out, *offset)
 	for i := int64(0); ; i++ {
 		if *maxruns > 0 && i >= *maxruns {
+			break
+		}
+		if *one != 0 && i > 0 {
 			break
 		}
 		if i%8 == 0 && time.Since(start).Seconds() > *deadline {
@@ -332,6 +337,12 @@ func WorkerMain() {
 		if seed == 0 {
 			seed = 1
 		}
+		if *one != 0 {
+			seed = *one
+		}
+		// leave a note of what is about to run: if the code under test kills the
+		// process (fatal error, stack overflow), the driver re-runs this seed
+		os.WriteFile(curFile, []byte(fmt.Sprint(seed)), 0o644)
 		s := w.Gen(NewRng(seed), *tier)
 		s.Seed = seed
 		s.Property = *prop
@@ -347,6 +358,11 @@ func WorkerMain() {
 		}
 		res.LastSeed = seed
 		violFile := fmt.Sprintf("%s/viol-%d.json", *out, *offset)
+		if *one != 0 {
+			c := s.Clone()
+			c.Expect = &scn.Violation{Class: "process-crash", Detail: "the process running this scenario died"}
+			c.Save(fmt.Sprintf("%s/crash-%d.json", *out, *offset))
+		}
 		curOutFile = ""
 		installAbortHookGen(s, res, violFile, finish)
 		x := RunOne(w, s, false, false)
